@@ -9,7 +9,7 @@ src = Path(sys.argv[1])
 for f in sorted(src.glob("*.json")):
     t = f.read_text()
     try:
-        out = json.loads(t[: t.rindex("}") + 1][t.index("{"):]) if t.strip().startswith("{") else json.loads(t[t.index("{"): t.rindex("}") + 1])
+        out, _ = json.JSONDecoder().raw_decode(t[t.index("{"):])
     except Exception as e:  # noqa
         print(f.stem, "unparsable", str(e)[:80])
         continue
